@@ -103,3 +103,26 @@ _dopts = TypeSpec('dict', (), False, parse_spec('str?'))
 named_spec('Annotations', TypeSpec('dict', (AP.GtkDocAnnotations,), False, _opts,
                                    keyed={AP.ANN_ARRAY: _dopts, AP.ANN_ATTRIBUTES: _dopts}))
 schema(AP.GtkDocAnnotatable, position='Position?', annotations='Annotations')
+
+
+# ------------------------------------------------------------------------------------------------
+# The C lexer's symbol/type objects (extension module, absent here): stub classes with the attributes
+# that giscanner/sourcescanner.py reads through its SourceSymbol / SourceType properties.
+class CSym(object):
+    """stand-in for _giscanner.SourceSymbol (C object)"""
+
+
+class CTyp(object):
+    """stand-in for _giscanner.SourceType (C object)"""
+
+
+UNIVERSE.register(CSym)
+UNIVERSE.register(CTyp)
+import sys as _sys
+add_spec_namespace(_sys.modules[__name__])
+schema(CSym, const_int='int?', const_double='any', const_string='str?', const_boolean='bool?', ident='str?',
+       type='int', base_type='CTyp?', source_filename='str?', line='int?', private='bool')
+schema(CTyp, type='int', base_type='CTyp?', name='str?', type_qualifier='int', child_list='list[CSym]',
+       is_bitfield='bool', function_specifier='int')
+schema(sourcescanner.SourceSymbol, _scanner='any', _symbol='CSym')
+schema(sourcescanner.SourceType, _scanner='any', _stype='CTyp')
